@@ -521,8 +521,21 @@ fn build_other<K: Elem, V: Elem>(kind: u8, d: &MapDrv<K, V>) -> Map<K, V> {
 
 pub fn run(c: &mut Ctx) {
     c.run_scenarios(|c, idx, rng| {
-        let pair = C04_PAIRS[(crate::util::mix(idx) % C04_PAIRS.len() as u64) as usize];
-        for_pair!(pair, scenario(c, idx, rng));
+        // one scenario in five enumerates faults on a HashSet or a HashTable
+        match crate::util::mix(idx) % 10 {
+            0 => other::set_scenario::<crate::elem::T24>(c, rng),
+            1 => {
+                if rng.chance(1, 2) {
+                    other::table_scenario::<crate::elem::T24>(c, rng)
+                } else {
+                    other::table_scenario::<crate::elem::P8>(c, rng)
+                }
+            }
+            _ => {
+                let pair = C04_PAIRS[((crate::util::mix(idx) / 10) % C04_PAIRS.len() as u64) as usize];
+                for_pair!(pair, scenario(c, idx, rng));
+            }
+        }
     });
 }
 
@@ -533,7 +546,7 @@ fn contents<K: Elem, V: Elem>(m: &Map<K, V>) -> Vec<(u32, u16, u32, u16)> {
 }
 
 pub fn scenario<K: Elem, V: Elem>(c: &mut Ctx, idx: u64, rng: &mut Rng) {
-    let recipe = RECIPES[((crate::util::mix(idx) / C04_PAIRS.len() as u64) % RECIPES.len() as u64) as usize];
+    let recipe = RECIPES[((crate::util::mix(idx) / 60) % RECIPES.len() as u64) as usize];
     // saturation needs clustered hashes to leave tombstones
     let plan = match recipe {
         Recipe::Layout => *rng.pick(&[Plan::Ident, Plan::Ident, Plan::IdentOneTag]),
@@ -785,5 +798,359 @@ fn one_fault<K: Elem, V: Elem>(c: &mut Ctx, spec: &StateSpec, op: &FOp, class: C
         // start the next case from a clean ledger
         elem::reg_reset();
         ckalloc::forget_leaks();
+    }
+}
+
+// ---------------------------------------------------------------------------------------------
+// HashSet and HashTable fault enumeration (smaller operation sets; the post-conditions are the same)
+
+mod other {
+    use super::*;
+    use crate::states::{build, Coll, SetC, Spec, TableC};
+    use crate::tabledrv::hasher_of;
+
+    #[derive(Clone, Debug)]
+    pub enum SOp {
+        Insert(u32),
+        Replace(u32),
+        GetOrInsertWith(u32),
+        Take(u32),
+        Retain(u64),
+        Reserve(usize),
+        ShrinkToFit,
+        Clone,
+        CloneFrom,
+        UnionCollect,
+        OrAssign,
+        AndAssign,
+        XorAssign,
+        SubAssign,
+        Extend(Vec<u32>),
+        Drop,
+        // table-only
+        TInsertUnique(u32),
+        TEntryOrInsert(u32),
+        TEntryRemoveReinsert(u32),
+        TFindEntryRemove(u32),
+    }
+
+    fn apply_set<T: Elem>(op: &SOp, s: &mut SetC<T>, other: &SetC<T>, target: &mut Option<SetC<T>>) {
+        match op {
+            SOp::Insert(id) => {
+                s.0.insert(T::make(*id, 7));
+            }
+            SOp::Replace(id) => {
+                let _ = s.0.replace(T::make(*id, 7));
+            }
+            SOp::GetOrInsertWith(id) => {
+                let _ = s.0.get_or_insert_with(&KeyRef(*id), |q| {
+                    fuse::tick(Class::Closure);
+                    T::make(q.0, 7)
+                });
+            }
+            SOp::Take(id) => {
+                let _ = s.0.take(&KeyRef(*id));
+            }
+            SOp::Retain(salt) => s.0.retain(|k| {
+                fuse::tick(Class::Closure);
+                pred(*salt, k.id())
+            }),
+            SOp::Reserve(n) => s.0.reserve(*n),
+            SOp::ShrinkToFit => s.0.shrink_to_fit(),
+            SOp::Clone => drop(s.0.clone()),
+            SOp::CloneFrom => {
+                if let Some(t) = target.as_mut() {
+                    t.0.clone_from(&s.0);
+                }
+            }
+            SOp::UnionCollect => {
+                let u: crate::states::Set<T> = s.0.union(&other.0).cloned().collect();
+                drop(u);
+            }
+            SOp::OrAssign => s.0 |= &other.0,
+            SOp::AndAssign => s.0 &= &other.0,
+            SOp::XorAssign => s.0 ^= &other.0,
+            SOp::SubAssign => s.0 -= &other.0,
+            SOp::Extend(ids) => {
+                let items: Vec<T> = ids.iter().map(|i| T::make(*i, 7)).collect();
+                s.0.extend(TickIter { inner: items.into_iter() });
+            }
+            SOp::Drop => {
+                let bh = s.bh();
+                let old = std::mem::replace(&mut s.0, crate::states::Set::with_hasher_in(bh, CkAlloc));
+                drop(old);
+            }
+            _ => {}
+        }
+    }
+
+    fn apply_table<E: Elem>(op: &SOp, t: &mut TableC<E>, target: &mut Option<TableC<E>>) {
+        let bh = t.1;
+        let hs = hasher_of::<E>(bh.plan, bh.salt);
+        match op {
+            SOp::TInsertUnique(id) => {
+                t.0.insert_unique(bh.hash_of(*id), E::make(*id, 7), hs);
+            }
+            SOp::TEntryOrInsert(id) => {
+                let id = *id;
+                let _ = t.0
+                    .entry(
+                        bh.hash_of(id),
+                        |e| {
+                            fuse::tick(Class::Eq);
+                            e.id() == id
+                        },
+                        hs,
+                    )
+                    .or_insert_with(|| {
+                        fuse::tick(Class::Closure);
+                        E::make(id, 7)
+                    });
+            }
+            SOp::TEntryRemoveReinsert(id) => {
+                let id = *id;
+                if let Ok(o) = t.0.find_entry(bh.hash_of(id), |e| e.id() == id) {
+                    let (old, vac) = o.remove();
+                    drop(old);
+                    vac.insert(E::make(id, 7));
+                }
+            }
+            SOp::TFindEntryRemove(id) => {
+                let id = *id;
+                if let Ok(o) = t.0.find_entry(bh.hash_of(id), |e| {
+                    fuse::tick(Class::Eq);
+                    e.id() == id
+                }) {
+                    let _ = o.remove();
+                }
+            }
+            SOp::Retain(salt) => t.0.retain(|k| {
+                fuse::tick(Class::Closure);
+                pred(*salt, k.id())
+            }),
+            SOp::Reserve(n) => t.0.reserve(*n, hs),
+            SOp::ShrinkToFit => t.0.shrink_to_fit(hs),
+            SOp::Clone => drop(t.0.clone()),
+            SOp::CloneFrom => {
+                if let Some(x) = target.as_mut() {
+                    x.0.clone_from(&t.0);
+                }
+            }
+            SOp::Drop => {
+                let old = std::mem::replace(&mut t.0, crate::states::Table::new_in(CkAlloc));
+                drop(old);
+            }
+            _ => {}
+        }
+    }
+
+    fn post<C: Coll>(c: &mut Ctx, col: &C, what: &str) {
+        col.validate(what);
+        let n = col.contents().len();
+        crate::check!(n == col.len(), "{}: len() = {} but the collection yields {}", what, col.len(), n);
+        let _ = c;
+    }
+
+    fn settle(what: &str, fired: bool, class: Class) {
+        let live = elem::live_now();
+        let blocks = ckalloc::counters().live_blocks;
+        if fired && class == Class::Drop {
+            elem::reg_reset();
+            ckalloc::forget_leaks();
+            return;
+        }
+        crate::check!(live == 0, "{}: {} element(s) neither present nor dropped (leak without a destructor panic)", what, live);
+        crate::check!(blocks == 0, "{}: {} block(s) leaked although no destructor panicked", what, blocks);
+    }
+
+    pub fn set_scenario<T: Elem>(c: &mut Ctx, rng: &mut Rng) {
+        let r1 = crate::states::RECIPES[rng.usize_below(crate::states::RECIPES.len())];
+        let r2 = crate::states::RECIPES[rng.usize_below(crate::states::RECIPES.len())];
+        let spec = Spec::random(rng, r1);
+        let ospec = Spec::random(rng, r2);
+        let probe: SetC<T> = build(&spec);
+        let ids: Vec<u32> = probe.contents().iter().map(|e| e.0).collect();
+        let cap = probe.capacity();
+        drop(probe);
+        let any = |rng: &mut Rng| -> u32 {
+            if !ids.is_empty() && rng.chance(1, 3) {
+                ids[rng.usize_below(ids.len())]
+            } else {
+                rng.below((ids.len() as u64 + 8) * 2) as u32 % T::ID_SPACE
+            }
+        };
+        let ops: Vec<SOp> = (0..3)
+            .map(|_| match rng.below(16) {
+                0 | 1 | 2 => SOp::Insert(any(rng)),
+                3 => SOp::Replace(any(rng)),
+                4 => SOp::GetOrInsertWith(any(rng)),
+                5 => SOp::Take(any(rng)),
+                6 => SOp::Retain(rng.next()),
+                7 => SOp::Reserve(*rng.pick(&[1usize, cap + 1, 3 * cap + 5])),
+                8 => SOp::ShrinkToFit,
+                9 => SOp::Clone,
+                10 => SOp::CloneFrom,
+                11 => SOp::UnionCollect,
+                12 => [SOp::OrAssign, SOp::AndAssign, SOp::XorAssign, SOp::SubAssign][rng.usize_below(4)].clone(),
+                13 => SOp::Extend((0..rng.below(6) + 1).map(|_| any(rng)).collect()),
+                _ => SOp::Drop,
+            })
+            .collect();
+        let mut desc = Json::obj();
+        desc.set("collection", Json::s(format!("HashSet<{}>", T::NAME)));
+        desc.set("state", Json::s(spec.describe()));
+        desc.set("other", Json::s(ospec.describe()));
+        desc.set("ops", Json::Arr(ops.iter().map(|o| Json::s(format!("{:?}", o))).collect()));
+        c.describe(desc);
+        for op in &ops {
+            // dry run
+            let mut s: SetC<T> = build(&spec);
+            let other: SetC<T> = build(&ospec);
+            let mut target = if matches!(op, SOp::CloneFrom) { Some(build::<SetC<T>>(&ospec)) } else { None };
+            fuse::reset_counts();
+            if let Err(p) = catch(|| apply_set(op, &mut s, &other, &mut target)) {
+                crate::viol!("C04 set dry run of {:?} panicked: {}", op, payload_str(&p));
+                return;
+            }
+            let counts = fuse::counts();
+            drop(target);
+            drop(s);
+            drop(other);
+            for class in CLASSES {
+                let n = counts[class as usize];
+                let ks: Vec<u64> = if n <= 8 { (0..n).collect() } else { vec![0, 1, 2, n / 2, n - 2, n - 1] };
+                for k in ks {
+                    c.evaluations += 1;
+                    let mut s: SetC<T> = build(&spec);
+                    let other: SetC<T> = build(&ospec);
+                    let mut target = if matches!(op, SOp::CloneFrom) { Some(build::<SetC<T>>(&ospec)) } else { None };
+                    fuse::reset_counts();
+                    fuse::arm(class, k);
+                    let r = catch(|| apply_set(op, &mut s, &other, &mut target));
+                    let fired = !fuse::is_armed();
+                    fuse::disarm();
+                    let what = format!("HashSet<{}> {:?} fuse ({},{}) [{}]", T::NAME, op, class.name(), k, spec.describe());
+                    if let Err(p) = &r {
+                        crate::check!(is_injected(p), "{}: a different panic came out: {}", what, payload_str(p));
+                    } else if fired {
+                        crate::viol!("{}: the injected panic was swallowed", what);
+                    }
+                    if fired {
+                        c.bump("fuse_fired");
+                        c.bump(&format!("fired_{}", class.name()));
+                        c.bump("fired_on_set_or_table");
+                        c.sig_parts(&[7000, crate::ctx::prop_salt(&format!("{:?}", std::mem::discriminant(op))), class as u64, T::TRACKED as u64]);
+                    }
+                    post(c, &s, &what);
+                    if let Some(t) = target.as_ref() {
+                        post(c, t, &what);
+                    }
+                    let r2 = catch(|| {
+                        s.put(3 % T::ID_SPACE, 8);
+                        s.clear();
+                    });
+                    crate::check!(r2.is_ok(), "{}: re-using the set after the caught panic panicked", what);
+                    drop(target);
+                    drop(s);
+                    drop(other);
+                    settle(&what, fired, class);
+                    if crate::util::has_violation() {
+                        return;
+                    }
+                }
+            }
+        }
+    }
+
+    pub fn table_scenario<E: Elem>(c: &mut Ctx, rng: &mut Rng) {
+        let r1 = crate::states::RECIPES[rng.usize_below(crate::states::RECIPES.len())];
+        let r2 = crate::states::RECIPES[rng.usize_below(crate::states::RECIPES.len())];
+        let spec = Spec::random(rng, r1);
+        let ospec = Spec::random(rng, r2);
+        // the clone_from target shares the source's hash plan (a HashTable has no hasher of its own:
+        // after clone_from its elements are the source's, hashed by the source's plan)
+        let ospec = Spec { plan: spec.plan, salt: spec.salt, ..ospec };
+        let probe: TableC<E> = build(&spec);
+        let ids: Vec<u32> = probe.contents().iter().map(|e| e.0).collect();
+        let cap = probe.capacity();
+        drop(probe);
+        let any = |rng: &mut Rng| -> u32 {
+            if !ids.is_empty() && rng.chance(1, 3) {
+                ids[rng.usize_below(ids.len())]
+            } else {
+                rng.below((ids.len() as u64 + 8) * 2) as u32 % E::ID_SPACE
+            }
+        };
+        let ops: Vec<SOp> = (0..3)
+            .map(|_| match rng.below(12) {
+                0 | 1 | 2 => SOp::TInsertUnique(any(rng)),
+                3 | 4 => SOp::TEntryOrInsert(any(rng)),
+                5 => SOp::TEntryRemoveReinsert(any(rng)),
+                6 => SOp::TFindEntryRemove(any(rng)),
+                7 => SOp::Retain(rng.next()),
+                8 => SOp::Reserve(*rng.pick(&[1usize, cap + 1, 3 * cap + 5])),
+                9 => SOp::ShrinkToFit,
+                10 => [SOp::Clone, SOp::CloneFrom][rng.usize_below(2)].clone(),
+                _ => SOp::Drop,
+            })
+            .collect();
+        let mut desc = Json::obj();
+        desc.set("collection", Json::s(format!("HashTable<{}>", E::NAME)));
+        desc.set("state", Json::s(spec.describe()));
+        desc.set("ops", Json::Arr(ops.iter().map(|o| Json::s(format!("{:?}", o))).collect()));
+        c.describe(desc);
+        for op in &ops {
+            let mut t: TableC<E> = build(&spec);
+            let mut target = if matches!(op, SOp::CloneFrom) { Some(build::<TableC<E>>(&ospec)) } else { None };
+            fuse::reset_counts();
+            if let Err(p) = catch(|| apply_table(op, &mut t, &mut target)) {
+                crate::viol!("C04 table dry run of {:?} panicked: {}", op, payload_str(&p));
+                return;
+            }
+            let counts = fuse::counts();
+            drop(target);
+            drop(t);
+            for class in CLASSES {
+                let n = counts[class as usize];
+                let ks: Vec<u64> = if n <= 8 { (0..n).collect() } else { vec![0, 1, 2, n / 2, n - 2, n - 1] };
+                for k in ks {
+                    c.evaluations += 1;
+                    let mut t: TableC<E> = build(&spec);
+                    let mut target = if matches!(op, SOp::CloneFrom) { Some(build::<TableC<E>>(&ospec)) } else { None };
+                    fuse::reset_counts();
+                    fuse::arm(class, k);
+                    let r = catch(|| apply_table(op, &mut t, &mut target));
+                    let fired = !fuse::is_armed();
+                    fuse::disarm();
+                    let what = format!("HashTable<{}> {:?} fuse ({},{}) [{}]", E::NAME, op, class.name(), k, spec.describe());
+                    if let Err(p) = &r {
+                        crate::check!(is_injected(p), "{}: a different panic came out: {}", what, payload_str(p));
+                    } else if fired {
+                        crate::viol!("{}: the injected panic was swallowed", what);
+                    }
+                    if fired {
+                        c.bump("fuse_fired");
+                        c.bump(&format!("fired_{}", class.name()));
+                        c.bump("fired_on_set_or_table");
+                        c.sig_parts(&[8000, crate::ctx::prop_salt(&format!("{:?}", std::mem::discriminant(op))), class as u64, E::TRACKED as u64]);
+                    }
+                    post(c, &t, &what);
+                    if let Some(x) = target.as_ref() {
+                        post(c, x, &what);
+                    }
+                    let r2 = catch(|| {
+                        t.put(3 % E::ID_SPACE, 8);
+                        t.clear();
+                    });
+                    crate::check!(r2.is_ok(), "{}: re-using the table after the caught panic panicked", what);
+                    drop(target);
+                    drop(t);
+                    settle(&what, fired, class);
+                    if crate::util::has_violation() {
+                        return;
+                    }
+                }
+            }
+        }
     }
 }
